@@ -64,6 +64,15 @@ pub fn run(ctx: &RunCtx, caps: bool) -> Outcome {
     if !stage(ctx, &mut o, &p, &format!("unicode/line-anchor leaves N<={}", uni_n), &upats, &utexts) {
         return o;
     }
+    // literals that are meta-characters
+    {
+        let mp = space(&gen::meta_cfg(), if quick { 3 } else { 4 }, false);
+        let mut mt = gen::texts(&gen::META_SIGMA, 3);
+        mt.extend(["\\", ")a", "[.", "a\\a", "$)"].iter().map(|s| s.to_string()));
+        if !stage(ctx, &mut o, &p, "meta-character literals", &mp, &mt) {
+            return o;
+        }
+    }
     // texts with characters on the UTF-8 length-class boundaries
     {
         let mut small = space(&gen::core_cfg(), 3, false);
